@@ -693,19 +693,19 @@ func canonClient(sc *Scenario, rec *recorder, res *http.Response) []string {
 				delete(hdr, k)
 			}
 		}
-		if res.StatusCode == http.StatusOK {
+		if hdr.Get("Content-Type") != "application/json" {
 			bodyCanon = "B:" + hx(body)
-			end = endToken("body", 0, "-", 0)
-		} else {
-			// the Connect error JSON is decoded with the same decoder the tables are built with
-			if !json.Valid(body) {
-				bodyCanon = "MALFORMED"
-			} else if we, err := vanguard.VerifParseConnectUnaryError(body); err != nil {
-				bodyCanon = "MALFORMED"
-			} else {
-				bodyCanon = "-"
-				end = endToken("body", we.Code, canonMsg(sc, we.Message), we.Details)
+			if res.StatusCode == http.StatusOK {
+				end = endToken("body", 0, "-", 0)
 			}
+		} else if !json.Valid(body) {
+			// the Connect error JSON is decoded with the same decoder the tables are built with
+			bodyCanon = "MALFORMED"
+		} else if we, err := vanguard.VerifParseConnectUnaryError(body); err != nil {
+			bodyCanon = "MALFORMED"
+		} else {
+			bodyCanon = "-"
+			end = endToken("body", we.Code, canonMsg(sc, we.Message), we.Details)
 		}
 	default:
 		bodyCanon = "B:" + hx(body)
